@@ -49,7 +49,8 @@ func c20Num(b []byte) string {
 		n.Lsh(n, 8)
 		n.Or(n, big.NewInt(int64(b[i])))
 	}
-	return n.String()
+	// hexadecimal: Coq converts decimal literals in quadratic time (14 s for 2,400 digits)
+	return "0x" + n.Text(16)
 }
 
 func (c c20Content) coq() string {
